@@ -50,7 +50,8 @@ def build(uni):
                       "$visit_into": "ref", "$access_time": "int",
                       "$access_type": "int", "$access_into": "ref",
                       "$merge_time": "int", "$merge_into": "ref",
-                      "$written": "bool", "$visited_by": "map[ref,set[ref]]",
+                      "$written": "bool", "$options_src": "ref",
+                      "$visited_by": "map[ref,set[ref]]",
                       "$accessed_by": "map[ref,set[ref]]"}
     WORLD = z3.Const("the_world", Ref)
     SIG = z3.Function("signature_of", Ref, Ref)
@@ -121,9 +122,15 @@ def build(uni):
             return it.getattr(VRef(selfv.e, "Obj"), attr, st, fr)
         return h
 
+    OPTS = z3.Function("options_of", Ref, Ref)
+
     def construct_hook(it, cname, args, kw, st, fr):
         if cname == "VariablesAccessInfo":
-            return it.alloc(st, "VariablesAccessInfo", None, "accesses_left")
+            new = it.alloc(st, "VariablesAccessInfo", None, "accesses_left")
+            src = kw.get("options")
+            st.write("$options_src", new.e,
+                     src.e if isinstance(src, VRef) else NULLC, "ref")
+            return new
         return None
     uni.construct_hook = construct_hook
 
@@ -140,7 +147,7 @@ def build(uni):
             lambda it, s, a, k, st, fr: NONE,
         "VariablesAccessInfo.options": lambda it, s, a, k, st, fr: (
             it.getattr(VRef(s.e, "Obj"), "$collect_shape_reads", st, fr)
-            if a else NONE),
+            if a else VRef(OPTS(s.e), "OptionsOf")),
         "VariablesAccessInfo.__getitem__": lambda it, s, a, k, st, fr: VRef(
             SVAI(s.e, a[0].e), "SingleVariableAccessInfo"),
         "SingleVariableAccessInfo.change_read_to_write": h_change,
@@ -311,6 +318,10 @@ def build(uni):
             st.read("$merge_time", a[0].e, "int") >
             st.read("$visit_time", a[2].e, "int"))))
     uni.consts["into"] = g("$visit_into", "ref")
+    uni.consts["opts_src"] = g("$options_src", "ref")
+    uni.consts["opts_of"] = VFunc("hook", fn=lambda it, a, k, st, fr: VRef(
+        OPTS(a[0].e), "OptionsOf"))
+    uni.axioms.append(z3.ForAll([x], OPTS(x) != NULLC, patterns=[OPTS(x)]))
     uni.consts["written"] = VFunc("hook", fn=lambda it, a, k, st, fr: VBool(
         st.read("$written", SVAI(a[0].e, SIG(a[1].e)), "bool")))
     c = Contract(
@@ -326,6 +337,9 @@ def build(uni):
              "fresh(into(at(self._children, 0))) and "
              "vtime(at(self._children, 0)) > old(clock()) and "
              "written(into(at(self._children, 0)), at(self._children, 0))"),
+            ("target_collector_uses_the_callers_options",
+             "opts_src(into(at(self._children, 0))) is "
+             "opts_of(var_accesses)"),
             ("target_write_ordered_after_rhs_reads",
              "merged_after(into(at(self._children, 0)), var_accesses, "
              "at(self._children, 1))"),
